@@ -309,3 +309,44 @@ type ownTagProfile struct{}
 
 func (ownTagProfile) GetName() string             { return OwnTagName }
 func (ownTagProfile) GetClaims() psatoken.IClaims { return newOwnTagClaims() }
+
+// ---- derived profiles that inherit EVERYTHING (codec methods, getters,
+// Validate) from the embedded built-in type and only set CanonicalProfile,
+// as the documentation of that field suggests ----
+
+const (
+	InhP1Name = "http://vendor.example/verif/p1-derived"
+	// a profile named by an OID (EAT allows both URIs and OIDs)
+	InhP2OID = "1.3.6.1.4.1.4128.100.2"
+)
+
+type InheritP1Claims struct{ psatoken.P1Claims }
+
+type inheritP1Profile struct{}
+
+func (inheritP1Profile) GetName() string { return InhP1Name }
+
+// the factory leaves the optional profile claim unset
+func (inheritP1Profile) GetClaims() psatoken.IClaims {
+	return &InheritP1Claims{psatoken.P1Claims{
+		SwComponents:     &psatoken.SwComponents[*psatoken.SwComponent]{},
+		CanonicalProfile: InhP1Name,
+	}}
+}
+
+type InheritP2Claims struct{ psatoken.P2Claims }
+
+type inheritP2Profile struct{}
+
+func (inheritP2Profile) GetName() string { return InhP2OID }
+func (inheritP2Profile) GetClaims() psatoken.IClaims {
+	p := eat.Profile{}
+	if err := p.Set(InhP2OID); err != nil {
+		panic(err)
+	}
+	return &InheritP2Claims{psatoken.P2Claims{
+		Profile:          &p,
+		SwComponents:     &psatoken.SwComponents[*psatoken.SwComponent]{},
+		CanonicalProfile: InhP2OID,
+	}}
+}
